@@ -64,6 +64,15 @@ open MdIt.Block
 #check @tightenItems_items
 #check @Shaped.list_children
 #check @Shaped.item_parent
+-- fuel, exit
+#check @lazyScan_mono
+#check @bqScan_mono
+#check @listLoop_mono
+#check @runRule_mono
+#check @engine_mono
+#check @tokenize_mono
+#check @tokLoop_exit
+#check @tokenize_exit
 #print axioms silent_pure_hr
 #print axioms silent_pure_heading
 #print axioms silent_pure_code
@@ -123,3 +132,11 @@ open MdIt.Block
 #print axioms tightenItems_items
 #print axioms Shaped.list_children
 #print axioms Shaped.item_parent
+#print axioms lazyScan_mono
+#print axioms bqScan_mono
+#print axioms listLoop_mono
+#print axioms runRule_mono
+#print axioms engine_mono
+#print axioms tokenize_mono
+#print axioms tokLoop_exit
+#print axioms tokenize_exit
